@@ -46,7 +46,7 @@ CLAIMED = {
               "alphabet, token sequences, both exploded modes) and the grammar half of the property (conforming strings give "
               "exactly the grammar's sequence or ValueError; only ValueError escapes; print/parse round trip) is judged on the "
               "implementation by the Lean BNF recognizer Spec.PathGrammar. Not yet proved in Lean: tokenizer = grammar "
-              "segmentation (parse_sound) and the print/parse round trip."),
+              "segmentation (parse_sound) and the print/parse round trip. Round-trip pieces proved: matchFloat_complete (every well-formed decimal number followed by text that cannot continue it is matched in full — the converse of the prefix theorem) and splitSep_join (tokens without separators, each followed by a comma or space, are split back exactly)."),
         note=("Trusted: Lean kernel; propext/Classical.choice/Quot.sound; Spec/PathGrammar.lean; translator; harness; CPython "
               "float(). The scanners are hand-written meanings of the regexes (equality of regex sources checked; semantics tied "
               "to Python re by exhaustive correspondence)."),
@@ -122,7 +122,7 @@ CLAIMED = {
               "and, with allow_text, text tags); a group survives only with attributes, >= 2 children and clamped opacity strictly "
               "between 0 and 1 (ordered field); decimal rounding is idempotent with the half-unit bound (Q); command-letter target "
               "forms (C09). The complete grammar (Spec/Pico.lean, executable) is checked on every normal return of the library and "
-              "a CLI sample. Not a closed theorem yet: 'toPico = ok d' implies no grammar violation' for the pipeline model."),
+              "a CLI sample. Not a closed theorem yet: 'toPico = ok d' implies no grammar violation' for the pipeline model. Also proved by mutual induction over the tree rewrite: after the discard passes no processing instruction, no title/desc/metadata and no foreign-namespace element is left at any depth (no_pi_survives, no_meta_survives, no_foreign_survives)."),
         note=("Trusted: Lean kernel; propext/Classical.choice/Quot.sound; Spec/Pico.lean; lxml; the differential tie "
               "(harness/pipeline.py, oracle.py). One defect repaired (underfull groups after pruning)."),
         technique="Lean 4 proof (induction over the gate scan, order reasoning, Q arithmetic) + pipeline-model correspondence with replayed Skia oracle + executable-grammar search",
@@ -133,7 +133,7 @@ CLAIMED = {
               "returned unchanged by decompose_translation; decimal rounding is idempotent (Q). The byte-level statement is judged on "
               "every run: pass 2 and pass 3 of the implementation must equal pass 1 for every ndigits and the library's own gate must "
               "be clean; the Lean pipeline model is tied to the code on the second pass as well (trees and Skia questions). Not a "
-              "closed theorem yet: 'IsPico d -> toPico d = ok d' on the model."),
+              "closed theorem yet: 'IsPico d -> toPico d = ok d' on the model. Each of the four discard passes is proved idempotent for every document tree (removePIs_idempotent, removeAnonSymbols_idempotent, removeTitleMetaDesc_idempotent, removeNonSvg_idempotent, from local_pass_idempotent by mutual induction incl. the tail-text rule)."),
         note=("Trusted: Lean kernel; propext/Classical.choice/Quot.sound; lxml serialisation; CPython repr/float/round (modelled "
               "exactly in F64.lean, sampled). Three defects repaired (orphans after pruning, underfull groups, unrounded pushed opacity)."),
         technique="Lean 4 proof (fixed-point lemmas over ordered fields / Q) + second-pass pipeline correspondence + byte-identical re-conversion search",
@@ -159,8 +159,11 @@ CLAIMED = {
               "gradients, clipPaths), with ANY subtree, and with foreign attributes on any element (side condition: not directly "
               "before a text node, lxml's tail rule). The four passes are tied to the code on D and N(D); the end-to-end relation "
               "convert(N(D)) = convert(D) up to gradient-id relabelling, defs order and gradient rounding — incl. comments, "
-              "whitespace, XML declaration and attribute-less wrapper groups — is judged on metamorphic pairs on every run. Not "
-              "proved: the composition of the four passes for mixed noise kinds and the wrapper-group case."),
+              "whitespace, XML declaration and attribute-less wrapper groups — is judged on metamorphic pairs on every run. For "
+              "text-free documents the four passes compose into ONE local pass (cleanup_single_pass) and the whole clean-up is "
+              "blind to any mix of the noise kinds at once (cleanup_blind_mixed); with text nodes lxml's tail-text rule makes "
+              "sequential and combined removal differ in a corner, so that case and the wrapper-group case stay with the "
+              "metamorphic check."),
         note=("Trusted: Lean kernel; propext only; lxml parser options (remove_comments, remove_blank_text); harness "
               "canonicalisation (unused xmlns declarations left on inner elements are ignored, see DESIGN §6)."),
         technique="Lean 4 proof (mutual structural induction on an inductive noise-insertion relation) + cleanup-pass correspondence + metamorphic conversion search",
@@ -200,9 +203,13 @@ CLAIMED = {
               "every interval k of SVG's infinite dash/gap alternation the same length and the same on/off state, for lists "
               "of any length; split_opaque / split_only_fill / split_only_stroke — the two pieces _stroke emits (fill at "
               "opacity x fill-opacity, outline with the stroke paint at opacity x stroke-opacity) composite exactly like the "
-              "stroked shape in the property's scope, split_translucent_differs outside it; stroke_above_fill. Judged on every "
+              "stroked shape in the property's scope, split_translucent_differs outside it; stroke_above_fill; fill_piece_fields / "
+              "stroke_piece_fields — on the model of the code (SvgObj.strokePieces is what strokeSplit runs) the fill piece "
+              "carries opacity x fill-opacity and the outline piece the stroke paint at opacity x stroke-opacity, both with "
+              "fill-opacity 1. Judged on every "
               "run: composited colour of source and converted document at points the three-valued stroke evaluator classifies "
-              "as definitely inside / outside, under ancestor transforms incl. non-uniform scaling."),
+              "as definitely inside / outside (it tells caps from joins, knows the miter bound and follows dash patterns along the "
+              "flattened outline), under ancestor transforms incl. non-uniform scaling."),
         note="Trusted: Lean kernel; standard axioms; Skia's stroker (0.25 unit resolution); harness/render.py stroke evaluator.",
         technique="Lean 4 proof (dash index arithmetic, compositing algebra) + oracle-question correspondence + rendering judge",
         ref="DESIGN.md §4 C04"),
@@ -262,7 +269,8 @@ CLAIMED = {
               "SVG._inherited_attrib shared by all instances, cannot carry history because each flush clears it first — "
               "flush_history_free, batch_is_pointwise (a batch's results are each document's result alone, for any initial "
               "cache and any order), batch_perm, and the counter-theorem without_clear_history_matters; (b) sorted(attrib.keys()) "
-              "makes the inherited attribute context independent of storage order — sortedKeys_perm, inheritAttrib_perm; (c) a "
+              "makes the inherited attribute context independent of storage order — sortedKeys_perm, inheritAttrib_perm, "
+              "attribToPassOn_perm (neither the order of an element's own attributes nor that of the received context matters); (c) a "
               "translator-generated inventory of every set-order exposure, id()/hash() call, ambient-state import, functools "
               "cache and mutated module-/class-level container equals the reviewed one (gen_* by decide), and cache_clear is the "
               "first call of the flush. The tie: implementation output trees and Skia questions vs the model in-process, and "
